@@ -54,7 +54,7 @@ CONSTRAINT Track
 POSTCONDITION TraceAccepted
 CHECK_DEADLOCK FALSE
 """
-SAFETY = "INVARIANTS TypeOK P_C10_ManifestFits P_C10"
+SAFETY = "INVARIANTS TypeOK P_C10_Manifest P_C10"
 LIVE = "PROPERTIES P_C10a_EndsInSuccessor P_C10d_StopTerminates"
 
 
